@@ -18,16 +18,23 @@ def fragment_jobs(contracts, tier, only_cfg=None):
     return jobs
 
 
-def run_fragments(rep, contracts, tier, clause_filter=None, only_cfg=None):
+def _label(kind, payload):
+    from pyvc.runner import _label as lab
+    return lab(kind, payload)
+
+
+def run_fragments(rep, contracts, tier, clause_filter=None, only_cfg=None, skip_done=False, unit_filter=None):
     jobs = fragment_jobs(contracts, tier, only_cfg)
+    if skip_done:
+        jobs = [j for j in jobs if _label(*j) not in rep.units]          # already run (with all its clauses) by the property's own part
     res = run_jobs(jobs)
-    rep.add_fragment_results(res, clause_filter)
+    rep.add_fragment_results(res, clause_filter, unit_filter)
     for c in contracts:
         rep.functions.add(f'sourcer.expressions.{c.cls_name}._compile / always_succeeds / can_partially_succeed')
     return res
 
 
-def run_rt(rep, contracts, tier):
+def run_rt(rep, contracts, tier, skip_done=False, unit_filter=None):
     from pyvc.rtver import verify_rt
     both = tier == 'thorough'
     only = os.environ.get('VERIF_ONLY_UNIT')
@@ -37,11 +44,59 @@ def run_rt(rep, contracts, tier):
             if only and not only.startswith(f'runtime:{c.fn_name}['):
                 continue
             jobs.append(('call', (verify_rt, (c, cfg, both))))
+    if skip_done:
+        jobs = [j for j in jobs if _label(*j) not in rep.units]
     res = run_jobs(jobs)
-    rep.add_fragment_results(res)
+    rep.add_fragment_results(res, None, unit_filter)
     for c in contracts:
         rep.functions.add(f'run-time template {c.fn_name} (sourcer/translator.py)')
     return res
+
+
+def dependency_layer(rep, tier, groups=('fragments', 'runtime', 'nodes', 'wiring', 'front')):
+    """Obligations of the code a property's behaviour PASSES THROUGH without being about it: the generic (protocol / flag) clauses of every
+    fragment contract, the contracts of the run-time library, the node classes, the wiring of references / entry points / ignore / derived
+    modules, the front end.  A change there can break this property too (rounds 3-5 of the seeded changes: a third of the misses were
+    changes in a dependency that only the check of ANOTHER property looked at).  Units the property's own part already ran are skipped;
+    obligations that are a recorded finding of some property are reported under that property only."""
+    if os.environ.get('VERIF_NO_DEPENDENCY_LAYER'):
+        # harness use only (tools/run_harmless_scratch.sh): the layer is the same set of obligations in every check - when ALL checks are run
+        # on one tree it is enough to run it once
+        rep.notes.append('dependency layer skipped (VERIF_NO_DEPENDENCY_LAYER set by a harness that runs it once for all checks)')
+        return
+    import inspect
+    from pyvc.report import matches_any_known
+    from contracts import core, lists, bind, call, rt_run, rt_final, rt_errors, rt_misc, rt_walk, rt_objects, rt_transform, spellings
+    from . import wiring
+    not_known = lambda unit, name, path: not matches_any_known(unit, name, path)
+    rep.notes.append('DEPENDENCY LAYER (after the property\'s own obligations): generic clauses of all fragment contracts, run-time library contracts, node classes, '
+                     'wiring, front end - the code this property\'s behaviour passes through (checks/common.dependency_layer).')
+    if 'fragments' in groups:
+        generic = lambda name: name.split(':', 1)[-1].startswith('G-') or 'safety:' in name
+        run_fragments(rep, core.CORE + lists.LISTS + bind.BIND + call.CALL, tier, clause_filter=generic,
+                      only_cfg=lambda c, cfg: len(cfg.get('flags', [])) <= 2, skip_done=True, unit_filter=not_known)
+    if 'runtime' in groups:
+        run_rt(rep, rt_run.RUN + rt_final.FINAL + rt_errors.RT + rt_misc.EXC + rt_walk.WALK + rt_objects.OBJECTS + rt_objects.MORE + rt_transform.TRANSFORM,
+               tier, skip_done=True, unit_filter=not_known)
+    fns = []
+    if 'nodes' in groups:
+        fns += [wiring.operator_node_classes, wiring.class_compile_obligations, wiring.metadata_obligations]
+    if 'wiring' in groups:
+        fns += [wiring.entry_point_obligations, wiring.rule_wrapper_obligations, wiring.ref_resolution_obligations, wiring.ignore_wiring_obligations,
+                wiring.visit_reaches_every_child, wiring.memo_key_obligations, wiring.no_direct_rule_calls, wiring.ignored_rule_is_memoised,
+                wiring.derived_namespace_obligations]
+    if 'front' in groups:
+        fns += [wiring.frontend_literal_obligations, wiring.frontend_definition_obligations]
+    for fn in fns:
+        unit = inspect.signature(fn).parameters['unit'].default
+        if unit in rep.units:
+            continue
+        n0 = len(rep.obls)
+        fn(rep, tier)
+        # recorded findings of other properties that live in these exactly decided obligations stay with their own property
+        rep.obls[n0:] = [o for o in rep.obls[n0:] if not (o.verdict == 'failed' and matches_any_known(o.unit, o.name, o.path))]
+    if 'front' in groups:
+        run_fragments(rep, spellings.SPELLED, tier, skip_done=True, unit_filter=not_known)
 
 
 def run_vcs(rep, unit, vcs, axioms=()):
